@@ -280,6 +280,12 @@ pub fn run(tier: &str) -> Result<Report, String> {
         (vec!["a", "b"], vec![(1, 0), (0, 1)], vec![Some(Expr::bin('&', Expr::Call("f".into(), vec![1]), Expr::Call("f_1".into(), vec![]))), Some(Expr::Var(0))]),
         (vec!["a", "b"], vec![(1, 0), (0, 1)], vec![Some(Expr::Call("f".into(), vec![1])), Some(Expr::bin('|', Expr::Var(0), Expr::Call("f_0".into(), vec![])))]),
         (vec!["a", "b"], vec![(1, 0), (0, 1), (1, 1)], vec![None, Some(Expr::bin('^', Expr::Call("a_1".into(), vec![]), Expr::bin('&', Expr::Var(0), Expr::Var(1))))]),
+        // two symbols one of which is the other plus an underscore, next to a variable with that prefix
+        (vec!["f_a", "x"], vec![(0, 1)], vec![None, Some(Expr::bin('^', Expr::Call("f".into(), vec![0]), Expr::Call("f_".into(), vec![0])))]),
+        (vec!["f_1", "x"], vec![(0, 1)], vec![None, Some(Expr::bin('&', Expr::Call("f".into(), vec![0]), Expr::not(Expr::Call("f_".into(), vec![0]))))]),
+        (vec!["k_in", "x"], vec![(0, 1)], vec![None, Some(Expr::bin('^', Expr::bin('&', Expr::Var(0), Expr::Call("k".into(), vec![])), Expr::Call("k_".into(), vec![])))]),
+        (vec!["f__0", "x"], vec![(0, 1)], vec![None, Some(Expr::bin('|', Expr::Call("f".into(), vec![0]), Expr::Call("f_".into(), vec![0])))]),
+        (vec!["a", "x"], vec![(0, 1)], vec![None, Some(Expr::bin('^', Expr::Call("f".into(), vec![0]), Expr::Call("f_".into(), vec![0])))]),
     ] {
         let spec = NetSpec {
             vars: vars.iter().map(|s| s.to_string()).collect(),
